@@ -64,6 +64,14 @@ def _techlibs():
     return gen_techlibs.generate(os.path.join(core.REPO, 'src', 'kyupy', 'techlib.py'))[0]
 
 
+@register('TechLibTexts')
+def _techlib_texts():
+    import os
+    from translate import gen_techlibs
+    from vcheck import core
+    return gen_techlibs.generate_texts(os.path.join(core.REPO, 'src', 'kyupy', 'techlib.py'))[0]
+
+
 @register('LogicTables')
 def _logic_tables():
     import os
